@@ -392,6 +392,8 @@ class G:
         ty = self.rust_type(t)
         big = depth == 0 and r.random() < 0.5
         n = r.choice([0, 1, 2, 5, 6, 11, 12, 13, 40, 100, 300]) if big else r.choice([0, 1, 2, 3, 5])
+        if depth == 0 and getattr(self, 'force_n', None):
+            n = self.force_n      # a collection of a size that needs several tree levels / table groups
         simple_key = False
         if k in ('hashmap', 'btreemap', 'hashset', 'btreeset'):
             kt = t['key'] if 'key' in t else t['inner']
@@ -486,6 +488,16 @@ def gen(seed, nvars=36):
         t = g.gen_type(depth)
         name = f'v{i}'
         body.append(f'    let {name}: {g.rust_type(t)} = {g.expr(t)};')
+        vars_.append({'name': name, 'kind': 'local', 'type': t})
+    # every program holds a B-tree of three or more levels (root height >= 2 needs more than 143 entries, or 89 inserted in
+    # ascending order), a set of that size and a hash table of many groups, built by insertions and removals
+    for j, k in enumerate(('btreemap', 'btreeset', 'hashmap')):
+        kt = {'k': 'int', 't': rng.choice(['u32', 'i64', 'u16', 'i32'])}
+        t = {'k': k, 'key': kt, 'val': {'k': 'int', 't': rng.choice(['u8', 'i32', 'u64'])}} if k.endswith('map') else {'k': k, 'inner': kt}
+        g.force_n = rng.choice([150, 220, 400, 700])
+        name = f'v{nvars + j}'
+        body.append(f'    let {name}: {g.rust_type(t)} = {g.expr(t)};')
+        g.force_n = None
         vars_.append({'name': name, 'kind': 'local', 'type': t})
     # a function with arguments (arguments are values too)
     args = []
